@@ -11,6 +11,10 @@ from hypothesis import strategies as st
 from vf.gen import cbgen
 
 
+# loop variables: consecutive (hence often nested) loops get names of which one is a prefix of the other - F1 / F, GA / G ... - and unrelated ones
+LOOP_NAMES = ["F1", "F", "FA", "G", "GA", "H2", "H", "HH", "E", "E9"]
+
+
 class Line:
     def __init__(self, stmts, lid):
         self.stmts = stmts
@@ -25,6 +29,7 @@ class ProgGen:
         self.lines = []
         self.next_id = 0
         self.max_lines = max_lines
+        self.scale = False
         self.subs = []  # subroutine line ids
         self.counters = 0
         self.loopvars = 0
@@ -69,6 +74,11 @@ class ProgGen:
         """ON selector: a variable, or a converted function of it (the call must run right before the ON, after whatever precedes it on the
         line) - sometimes with an assignment to that very variable as the preceding statement."""
         v = self.d(st.sampled_from(["A", "B", "C"]))
+        if self.scale and self.d(st.integers(0, 3)):
+            # long ON lists are only exercised by selectors beyond the first few targets
+            n_ = self.d(st.sampled_from([1, 4, 8, 9, 10, 11, 12, 13, 15, 16, 17]))
+            stmts.append(["let", ["var", v], ["num", str(n_), n_], False])
+            self.features.add("scale_on_selector_up_to_13")
         r = self.d(st.integers(0, 5))
         if r >= 4:
             stmts.append(["let", ["var", v], ["bin", "+", ["var", v], ["num", "1", 1]], False])
@@ -123,12 +133,12 @@ class ProgGen:
 
     def one_line_for(self):
         self.loopvars += 1
-        v = "F%d" % (self.loopvars % 10)
+        v = LOOP_NAMES[self.loopvars % len(LOOP_NAMES)]
         self.features.add("one_line_for")
         if self.d(st.integers(0, 2)) == 0:
             # two nested loops closed by one NEXT with a variable list (or NEXT:NEXT)
             self.loopvars += 1
-            w = "F%d" % (self.loopvars % 10)
+            w = LOOP_NAMES[self.loopvars % len(LOOP_NAMES)]
             if w == v:
                 w = "H1"
             close = self.d(st.sampled_from(["list", "list", "two_bare", "inner_named"]))
@@ -215,7 +225,7 @@ class ProgGen:
             elif kind < 9 and depth > 0 and budget > 3:
                 # multi-line FOR loop around a sub-block
                 self.loopvars += 1
-                v = "F%d" % (self.loopvars % 10)
+                v = LOOP_NAMES[self.loopvars % len(LOOP_NAMES)]
                 step = self.d(st.sampled_from([None, None, ["num", "1", 1], ["num", "2", 2], ["neg", ["num", "1", 1]]]))
                 lo, hi = self.d(st.integers(0, 2)), self.d(st.integers(1, 4))
                 if step is not None and step[0] == "neg":
@@ -238,7 +248,7 @@ class ProgGen:
                     self.features.add("for_step")
                 continue
             elif kind < 10 and fwd:
-                k = self.d(st.integers(1, min(3, len(fwd))))
+                k = self.d(st.sampled_from([2, 5, 8, 9, 10, 11, 12, 13, 15, 16, 17])) if self.scale else self.d(st.integers(1, min(3, len(fwd))))
                 targets = [("L", t) for t in self.d(st.lists(st.sampled_from(fwd), min_size=k, max_size=k))]
                 sel = self.selector(stmts)
                 stmts.append(["on", sel, "GOTO", targets])
@@ -247,7 +257,7 @@ class ProgGen:
                 if self.d(st.booleans()):
                     stmts.append(["gosub", ("L", self.d(st.sampled_from(self.subs)))])
                 else:
-                    k = self.d(st.integers(1, min(3, len(self.subs))))
+                    k = self.d(st.sampled_from([2, 5, 8, 9, 10, 11, 12, 13, 15, 16, 17])) if self.scale else self.d(st.integers(1, min(3, len(self.subs))))
                     targets = [("L", t) for t in self.d(st.lists(st.sampled_from(self.subs), min_size=k, max_size=k))]
                     stmts.append(["on", self.selector(stmts), "GOSUB", targets])
                     self.features.add("on_gosub")
@@ -264,7 +274,7 @@ class ProgGen:
                 zip(["A", "B", "C"], [self.d(st.integers(0, 4)) for _ in range(3)])]
         first = self.new_id()
         lines = [Line(init, first)]
-        lines += self.block(2, self.max_lines)
+        lines += self.block(3 if self.scale else 2, self.max_lines)
         endid = self.new_id()
         lines.append(Line([self.marker(endid), ["print", [["e", ["var", "A"]], ["s", ";"], ["e", ["var", "B"]], ["s", ";"], ["e", ["var", "C"]], ["s", ";"], ["e", ["var", "T"]]]],
                            self.d(st.sampled_from([["end"], ["end"], ["stop"]]))], endid))
@@ -273,6 +283,11 @@ class ProgGen:
         # number the lines and resolve symbolic targets
         step = self.d(st.sampled_from([10, 10, 5, 1, 100]))
         start = self.d(st.sampled_from([10, 1, 100, 0]))
+        if self.scale and len(lines) <= 30 and self.d(st.booleans()):
+            step, start = 1000, 100  # five-digit line numbers
+            self.features.add("scale_five_digit_line_numbers")
+        if len(lines) >= 25:
+            self.features.add("scale_25_or_more_lines")
         num = {}
         for i, ln in enumerate(lines):
             num[ln.lid] = start + i * step
@@ -308,6 +323,10 @@ class ProgGen:
 
 @st.composite
 def control_programs(draw, switches=frozenset(), max_lines=14):
-    pg = ProgGen(draw, switches, max_lines=max_lines)
+    scale = draw(st.integers(0, 6)) == 0  # one program in seven is large: up to 40 lines, nesting one level deeper, longer ON lists
+    pg = ProgGen(draw, switches, max_lines=40 if scale else max_lines)
+    pg.scale = scale
+    if scale:
+        pg.features.add("scale_program")
     prog = pg.program()
     return {"prog": prog, "_meta": {"features": sorted(pg.features), "excluded": dict(pg.excluded) | dict(pg.g.excluded)}}
